@@ -255,6 +255,9 @@ func fmtDeliveries(dl []delivery) string {
 // outcome: coarse class of what the event did (vacuity guard: handshake branches, acks, resets must be seen)
 func (w *world) outcome(pre, post *lite) string {
 	ev := w.ev
+	if ev == "L.gc" && post.LQAck != pre.LQAck {
+		return "L.gc,queue-ack-moved"
+	}
 	if !strings.HasPrefix(ev, "step") && ev != "F.online" {
 		return ev
 	}
